@@ -82,9 +82,38 @@ def long_expr(rng):
     return e
 
 
+def nested_compl_expr(rng):
+    """complements of sub-expressions directly inside one another, the outer one with further content: #(#(1 (2:3)) 4),
+    (#(#(1 2) 3)), #(#(1 #(2 3)) -5) — they cancel only when nothing else stands inside the outer one"""
+    nsurf = rng.randint(2, 5)
+    lit = lambda: ('s', rng.choice([1, -1]) * rng.randint(1, nsurf))  # noqa
+    def group():
+        m = rng.random()
+        if m < 0.4:
+            return ('i', lit(), ('u', lit(), lit()))
+        if m < 0.7:
+            return ('i', lit(), lit())
+        if m < 0.85:
+            return ('i', lit(), ('c', ('i', lit(), lit())))
+        return ('u', ('i', lit(), lit()), lit())
+    inner = ('c', group())
+    m = rng.random()
+    if m < 0.25:
+        e = ('c', inner)                                  # cancels
+    elif m < 0.75:
+        e = ('c', ('i', inner, lit() if rng.random() < 0.6 else ('u', lit(), lit())))
+    else:
+        e = ('c', ('u', inner, lit()))
+    if rng.random() < 0.3:
+        e = ('c', e) if rng.random() < 0.3 else ('i', e, lit())
+    return e
+
+
 def gen_expr(rng, allow_nested_cc=False):
     if rng.random() < 0.06:
         return long_expr(rng)
+    if rng.random() < 0.06:
+        return nested_compl_expr(rng)
     nsurf = rng.randint(1, 5)
     refs = [('s', i) for i in range(1, nsurf + 1)] + [('f', 7, rng.randint(1, 6)), ('f', 8, 1)]
     t = G.gen_bsp(rng, refs, rng.randint(1, 4), 2)
@@ -226,7 +255,7 @@ def run_case(stream, seed, ctx, params):
         return run_deck(ctx, stream, d, ['--skip-deduplication'] if rng.random() < 0.5 else [], rng, npts=150,
                         with_comp=False)
     if stream in ('complement', 'boolmon'):
-        d = G.build_flat_deck(rng, macro_p=0.2, imp0_p=0.1, p_obf=0.3)
+        d = G.complement_chain_deck(rng) if rng.random() < 0.15 else G.build_flat_deck(rng, macro_p=0.2, imp0_p=0.1, p_obf=0.3)
         text = D.render_deck(d, D.Layout(rng))
         res, cap = C.convert_capture(text)
         key = h(text)
